@@ -138,4 +138,21 @@ example : dbKey [65] [1,2,3] (.inst 258) =
     (cleanPrefix [65] [1,2,3]).isPrefixOf (dbKey [65] [1,2,3] (.inst 258)) = true ∧
     (cleanPrefix [65] [1,2,3]).isPrefixOf (dbKey [65] [1,2,3] .highest) = false := by decide
 
+
+/-- across stores: with store prefixes of EQUAL length (or any two prefixes neither of which the other extends by the start of an
+    identifier) CleanAllInstances of one store never reaches another store's entries -/
+theorem C15_clean_prefix_other_store (p1 p2 id id' : List Nat) (k : Kind) (hp : p1.length = p2.length)
+    (h : (cleanPrefix p1 id).isPrefixOf (dbKey p2 id' k) = true) : p1 = p2 := by
+  rw [List.isPrefixOf_iff_prefix] at h
+  obtain ⟨t, ht⟩ := h
+  unfold cleanPrefix dbKey at ht
+  simp only [List.append_assoc] at ht
+  exact (List.append_inj ht hp).1
+
+/-- the production role names are NOT of equal length and one extends another: the only cross-store hit needs an identifier that
+    starts with the rest of the longer role name (witness; message identifiers start with the 4-byte domain type, none of which
+    spells "_CON") -/
+example : (cleanPrefix (bytesOf "SYNC_COMMITTEE") (bytesOf "_CONTRIBUTIONx")).isPrefixOf
+    (dbKey (bytesOf "SYNC_COMMITTEE_CONTRIBUTION") (bytesOf "xinstance12345") (.inst 7)) = true := by decide
+
 end Ssv.StoreKey
